@@ -16,6 +16,7 @@ from gv.astutil import stmts_of
 from gv.astutil import unparse
 from gv.astutil import walk_body
 from gv.cfg import cfg_of
+from gv.props.shared import unfolded
 from gv.props import describe
 from gv.props.shared import branch_conditions
 from gv.props.shared import conj_literals
@@ -186,6 +187,13 @@ def check_reverse_chain_rule(ctx: Ctx) -> None:
     lin = [c for c in walk_body(f) if isinstance(c, ast.Call) and norm_stmt(c.func) == "discipline.linearize"]
     ok = len(lin) == 1 and all(cfg.dominates(cfg.node_of(lin[0]), cfg.node_of(s)) for s, _ in stores)
     ctx.ob("9.1-linearize-first", con, ok, "the new discipline must be linearised before its blocks are composed", node=(lin or [f])[0])
+    # ... at the inputs it was executed with: a variable overwritten further down the chain has another value in the
+    # chain's final data, and the partials of a non-linear discipline taken there are not those of the function computed
+    if lin:
+        pt = lin[0].args[0] if lin[0].args else kwarg(lin[0], "input_data")
+        alts = (unfolded(f, pt) or [pt]) if pt is not None else []
+        ok = bool(alts) and all(isinstance(a_, ast.Call) and last_attr(a_) == "get_input_data" and norm_stmt(a_.func).startswith("discipline.io.") and not a_.args for a_ in alts)
+        ctx.ob("9.6-linearization-point", con, ok, "a discipline of the chain must be linearised at ITS OWN last inputs (discipline.io.get_input_data()), the point at which it was executed, not at the data of the chain after the following disciplines ran", node=lin[0], stmt="discipline.linearize(<its own last inputs>)")
     # curr_jac read from the chain before the loop over new inputs (reference to the block being replaced)
     ctx.floor("9.1-store-key", 3)
     ctx.floor("9.1-product", 2)
@@ -381,7 +389,22 @@ def check_cache_and_traversal(ctx: Ctx) -> None:
         ctx.ob("9.6-monotone", cname(DI, "Discipline", mname), ok, f"{mname} must extend {attr} with the union of the old names and the new ones: a later, smaller request must not drop blocks requested before", node=(asg_ or [a])[0])
 
 
+def check_mda_chain_point(ctx: Ctx) -> None:
+    f = ctx.index.method("mda/mda_chain.py", "MDAChain", "_compute_jacobian")
+    con = cname("mda/mda_chain.py", "MDAChain", "_compute_jacobian")
+    lin = [c for c in walk_body(f) if isinstance(c, ast.Call) and norm_stmt(c.func) == "self.mdo_chain.linearize"]
+    ctx.need(len(lin) == 1, "MDAChain._compute_jacobian: self.mdo_chain.linearize not found")
+    pt = lin[0].args[0] if lin[0].args else kwarg(lin[0], "input_data")
+    alts = (unfolded(f, pt) or [pt]) if pt is not None else []
+    ok = bool(alts) and all(isinstance(a_, ast.Call) and norm_stmt(a_.func) == "self.io.get_input_data" and not a_.args for a_ in alts)
+    ctx.ob("9.6-linearization-point", con, ok, "the inner chain must be linearised at the inputs of the MDA chain", node=lin[0], stmt="mdo_chain.linearize(self.io.get_input_data())")
+    ex = kwarg(lin[0], "execute")
+    ok = ex is None or const_value(ex, None) is True
+    ctx.ob("9.6-linearization-point", con, ok, "the inner chain must be (re-)executed at that point when it is linearised: after a cache hit of the MDA chain, or a request at an earlier point, the inner disciplines hold the data of ANOTHER point and execute=False returns the blocks of that point", node=lin[0], stmt="mdo_chain.linearize executes at the requested point")
+
+
 def run(ctx: Ctx) -> None:
+    check_mda_chain_point(ctx)
     check_reverse_chain_rule(ctx)
     check_compute_jacobian(ctx)
     check_init_jacobian(ctx)
